@@ -632,6 +632,9 @@ func handleZPOP(params internal.HandlerFuncParams) ([]byte, error) {
 		if err != nil {
 			return nil, err
 		}
+		if c < 0 {
+			return nil, errors.New("count must be a positive integer")
+		}
 		if c > 0 {
 			count = c
 		}
